@@ -149,12 +149,28 @@ func Bulk(ctx context.Context, opts *BulkOptions) <-chan *BulkResponse {
 			}
 			wg.Add(1)
 			go func() {
-				resCh <- processRequest(ctx, req, seq, opts)
-				wg.Done()
+				defer wg.Done()
+				resCh <- safeProcessRequest(ctx, req, seq, opts)
 			}()
 		}
 	}()
 	return resCh
+}
+
+// safeProcessRequest ensures that a request which causes a panic is answered
+// with an error, instead of bringing down the whole stream and the rest of
+// the requests with it.
+func safeProcessRequest(ctx context.Context, req BulkRequest, seq int64, bulkOpts *BulkOptions) (res *BulkResponse) {
+	defer func() {
+		if r := recover(); r != nil {
+			res = &BulkResponse{
+				ReqID: req.ReqID,
+				SeqID: seq,
+				Error: wrapErrorf(StatusInternalServerError, "panic: %v", r),
+			}
+		}
+	}()
+	return processRequest(ctx, req, seq, bulkOpts)
 }
 
 func processRequest(ctx context.Context, req BulkRequest, seq int64, bulkOpts *BulkOptions) *BulkResponse { //nolint:gocyclo
